@@ -6,14 +6,12 @@ from typing import Dict, Iterable, List, Optional, Set, Tuple
 from ..effects import AV, ELEM, Effect, Effects, Summary, fmt_origin, State, _Interp
 from ..model import Func, Program
 
-_ENGINES: Dict[int, Effects] = {}
-
-
 def engine(prog: Program) -> Effects:
-    e = _ENGINES.get(id(prog))
+    """One effect engine per program model (cached on the model object)."""
+    e = getattr(prog, "_hvsa_engine", None)
     if e is None:
         e = Effects(prog)
-        _ENGINES[id(prog)] = e
+        prog._hvsa_engine = e
     return e
 
 
